@@ -81,7 +81,11 @@ def scan_trusted(text):
                 m2 = re.search(r'\[\s*([^\]]+?)\s*\]', code)
                 name = m2.group(1) if m2 else '?'
             elif kind in ('assume', 'admit'):
-                name = 'line %d: %s' % (i + 1, code.strip()[:80])
+                # keyed by its text and its ordinal among identical texts, NOT by line number: a harmless edit
+                # elsewhere in the file must not turn a listed assumption into a "new" one
+                txt = code.strip()[:80]
+                nth = sum(1 for o in out if o.startswith('%s: ' % kind) and o.endswith(txt))
+                name = '#%d %s' % (nth + 1, txt)
             else:
                 name = extract.rustlex.norm(m.group(0))
             out.append('%s: %s' % (kind, name))
